@@ -12,7 +12,7 @@ use std::path::PathBuf;
 use std::process::{Command, Stdio};
 use std::time::{Duration, Instant};
 
-pub const DIRECTIONS: [&str; 4] = ["car-nest", "cdr-nest", "vector-nest", "quote-chain"];
+pub const DIRECTIONS: [&str; 5] = ["car-nest", "cdr-nest", "alist", "vector-nest", "quote-chain"];
 pub const DATA_OPS: [&str; 7] = ["read", "quote-evaluate", "build", "collect", "equal", "write", "drop"];
 pub const OTHER: [&str; 8] = [
     "closure-chain/build",
@@ -93,6 +93,7 @@ fn datum_text(direction: &str, n: usize) -> String {
     match direction {
         "car-nest" => format!("{}{}", "(".repeat(n), ")".repeat(n)),
         "cdr-nest" => format!("({})", "1 ".repeat(n)),
+        "alist" => format!("({})", "(1 . 2) ".repeat(n)),
         "vector-nest" => format!("{}{}", "#(".repeat(n), ")".repeat(n)),
         "quote-chain" => format!("{}a", "'".repeat(n)),
         _ => "()".into(),
@@ -103,6 +104,7 @@ fn build_program(direction: &str, name: &str, n: usize) -> Vec<String> {
     let step = match direction {
         "car-nest" => "(list acc)",
         "cdr-nest" => "(cons 1 acc)",
+        "alist" => "(cons (cons n n) acc)",
         "vector-nest" => "(vector acc)",
         "quote-chain" => "(list 'quote acc)",
         _ => "acc",
@@ -377,7 +379,7 @@ pub fn run(tier: Tier, seed: u64, ev: &mut Evidence) -> Vec<Violation> {
         }
     }
     chosen.sort();
-    ev.rule = "grid {car-nest, cdr-nest, vector-nest, quote-chain} x {read, quote-evaluate, build at run time, keep live across a forced \
+    ev.rule = "grid {car-nest, cdr-nest, alist (a long list whose elements are pairs), vector-nest, quote-chain} x {read, quote-evaluate, build at run time, keep live across a forced \
                collection, equal?, write, drop} + closure chains (build, collect, walk) + continuation chains (build, collect) + non-tail \
                recursion + nested expressions (read, evaluate), x depth {10^3,10^4,10^5} x {main thread, 2 MiB thread} x {release, debug}; each \
                cell runs in an isolated worker process and passes if the worker completes or returns an error; quick = seeded sample of 160 cells \
